@@ -1001,7 +1001,7 @@ impl World for C17World {
 
     fn to_json(&self) -> Value {
         json!({"kind": if self.set { "SplaySet" } else { "SplayTree" }, "universe": self.universe, "rank": self.rank,
-            "heap_policy": self.heap, "heap_policy_name": Policy::from_code(self.heap).name(), "heap_seed": self.heap_seed.to_string(),
+            "heap_policy": self.heap, "heap_policy_name": Policy::from_world(self.heap).name(), "heap_seed": self.heap_seed.to_string(),
             "end": if self.end_clear { "clear_then_drop" } else { "drop" },
             "ops": self.ops.iter().map(op_json).collect::<Vec<_>>()})
     }
@@ -1020,12 +1020,8 @@ impl World for C17World {
     }
 
     fn run(&self, st: &mut Stats) -> Verdict {
-        let pol = Policy::from_code(self.heap);
-        if pol.place != heap::Place::Off {
-            if let Err(n) = heap::reset(self.heap_seed) {
-                st.add("harness_arena_not_empty_at_reset", n as u64);
-            }
-        }
+        let pol = Policy::from_world(self.heap);
+        let _ = heap::reset(self.heap_seed);
         ledger_reset();
         let cs = Arc::new(CmpState { rank: self.rank.clone(), calls: AtomicU64::new(0), garbage: AtomicU64::new(0) });
         *CURRENT_CMP.lock().unwrap_or_else(|e| e.into_inner()) = Some(cs.clone());
@@ -1085,7 +1081,7 @@ impl World for C17World {
         st.max("max_held_references", cx.held_max);
         st.add("observed_leaked_nodes_in_arena", leaked_nodes as u64);
         st.add("observed_leaked_items", leaked_items);
-        if pol.place != heap::Place::Off {
+        if pol != Policy::CANON {
             st.inc("fault_heap_policy_histories");
         } else {
             st.inc("fault_free_heap_histories");
